@@ -434,7 +434,7 @@ def _code_to_slice_BoolOp_values(
 
     elif (
         (is_slice_type and (is_same_op or op_cls is And))
-        or ast__cls in (NamedExpr, Yield, YieldFrom, IfExp)
+        or ast__cls in (NamedExpr, Yield, YieldFrom, IfExp, Lambda)
     ):  # these need to be parenthesized definitely
         if not fst_.pars().n:
             fst_._parenthesize_grouping()
@@ -568,7 +568,7 @@ def _code_to_slice_Compare__all(
 
     elif (
         is_slice_type
-        or ast__cls in (NamedExpr, Yield, YieldFrom, IfExp, BoolOp)
+        or ast__cls in (NamedExpr, Yield, YieldFrom, IfExp, BoolOp, Lambda)
         or (ast__cls is UnaryOp and ast_.op.__class__ is Not)
     ):  # these need to be parenthesized definitely
         if not fst_.pars().n:
